@@ -2,7 +2,18 @@
 
 LIBS_IO = ["-lz", "-lbz2", "-lexpat", "-llz4"]
 
+SIM_IO = ["sim.cpp", "simfs.cpp", "clamp.cpp", "sanitizer_opts.cpp"]
+WRAPS_IO = ["wraps_sched.txt", "wraps_fs.txt", "wraps_clamp.txt"]
+
 HARNESSES = {
+    "reader": {
+        "source": "reader.cpp",
+        "defines": ["-DOSMIUM_WITH_LZ4"],
+        "sim_sources": SIM_IO,
+        "wraps": WRAPS_IO,
+        "libs": LIBS_IO,
+        "variants": ["san", "san-ndebug"],
+    },
     "c19": {
         "source": "c19.cpp",
         "sim_sources": ["sim.cpp", "sanitizer_opts.cpp"],
@@ -36,4 +47,66 @@ PROPERTIES = {
         "components_stubbed": ["kernel scheduler and futex (baton scheduler)", "pthread mutex/condvar/once (model)", "clock (discrete-event)"],
         "assumptions": COMMON_ASSUMPTIONS,
     },
+}
+
+READER_REAL = ["osmium::io::Reader with its read thread, parser thread and pool workers", "all four parsers (XML via expat, OPL, PBF via protozero, o5m)", "Queue/Pool/queue_wrapper/ReadThreadManager",
+               "NoDecompressor/GzipDecompressor/Bzip2Decompressor and the buffer decompressors", "zlib, libbz2, expat, lz4 (statically linked, unmodified)", "glibc stdio over a cookie stream (bzip2)",
+               "libstdc++ thread/future/condition_variable (statically linked)"]
+READER_STUB = ["kernel scheduler and futex (baton scheduler)", "pthread mutex/condvar/once (model)", "clock (discrete-event)", "open/read/write/close/dup/fsync/fstat/lseek on /sim/ paths (in-memory file system with fault plan)"]
+
+PROPERTIES["C06"] = {
+    "level": "exploration",
+    "budget_s": {"quick": 80, "thorough": 1500},
+    "rule": "one evaluation = one input (generated XML/OPL/PBF/o5m file, optionally gz/bz2, or a repository fixture, or a truncation of one) read twice through the real Reader: a reference run (one piece, non-preemptive) and a run whose fd reads / decompressor calls return tape-chosen piece sizes (fixed 1..65536, random, explicit cut positions, EINTR) under a seeded schedule; the two outcomes (header+objects or exception type+message) must be equal. "
+            "Non-trivial = at least one short read / clamp fired or >= 2 threads were enabled at once; distinct = distinct event-log signature (threads x sync ops x file ops).",
+    "modes": [
+        {"mode": "c06", "harness": "reader", "runs": {"quick": 40000, "thorough": 1500000}},
+    ],
+    "expected_probes": ["reference outcome is an exception", "reference outcome is data"],
+    "components_real": READER_REAL,
+    "components_stubbed": READER_STUB,
+    "assumptions": COMMON_ASSUMPTIONS + ["piece sizes below 64 KiB are obtained through hook H4 (input_buffer_size) or by clamping gzread/BZ2_bzRead/inflate/BZ2_bzDecompress output lengths; one run in 16 keeps the shipped 1 MiB size"],
+}
+
+PROPERTIES["C05"] = {
+    "level": "exploration",
+    "budget_s": {"quick": 80, "thorough": 1500},
+    "rule": "one evaluation = one multi-buffer input read by the real Reader under a seeded schedule with tape-chosen pool size (1..32), queue bounds, PBF pool use, buffers_type, entity mask (16 subsets), read_meta, read()/InputIterator and parser buffer sizes (hook H2), compared object by object with a non-preemptive single-threaded reference decode of the same bytes. "
+            "Non-trivial = >= 2 threads enabled at once; distinct = distinct schedule signature.",
+    "modes": [
+        {"mode": "c05", "harness": "reader", "runs": {"quick": 25000, "thorough": 800000}},
+    ],
+    "expected_probes": ["three or more buffers delivered", "PBF decoded with >= 2 pool threads", "condvar timeout fired"],
+    "components_real": READER_REAL,
+    "components_stubbed": READER_STUB,
+    "assumptions": COMMON_ASSUMPTIONS,
+}
+
+PROPERTIES["C07"] = {
+    "level": "fault_enumeration",
+    "budget_s": {"quick": 80, "thorough": 1500},
+    "rule": "one evaluation = one Reader life cycle script (optional header(), k reads, then read-to-EOF / close() / destructor / close()+read() / close()+header()) on one input with at most one hard fault (EIO on the j-th read(2), close(2) failing, truncation at L, one corruption op) plus soft perturbation (short reads, clamped decompressor output, small queues and buffers), under a seeded schedule. Oracles: every call returns, no thread or fd left, storage-fault outcome equals the reference outcome, a fired I/O error is reported by some call, no data after an error, no read(2) after close(). "
+            "Non-trivial = a fault fired or >= 2 threads enabled at once; distinct = distinct event-log signature.",
+    "modes": [
+        {"mode": "c07", "harness": "reader", "runs": {"quick": 40000, "thorough": 1500000}},
+    ],
+    "expected_probes": ["hard fault fired", "exception reached the caller", "consumer abandoned the Reader early"],
+    "components_real": READER_REAL,
+    "components_stubbed": READER_STUB,
+    "assumptions": COMMON_ASSUMPTIONS + ["fault positions (j, L, corruption offsets) and stop points k are sampled by the seed, not enumerated"],
+}
+
+PROPERTIES["C03"] = {
+    "level": "exploration",
+    "budget_s": {"quick": 80, "thorough": 1500},
+    "rule": "one evaluation = one valid input (generated or fixture, all four formats, gz/bz2) damaged by 1-3 storage faults (bit flip, overwritten byte, zeroed/duplicated/removed/swapped range, spliced garbage, extreme 4-byte value, truncation; plus EIO) and read through the full threaded pipeline under a seeded schedule and random piece sizes, with every delivered object traversed completely, in an assertions-on and an NDEBUG build, both under ASan+UBSan. "
+            "Non-trivial = every run (each has >= 1 storage fault); distinct = distinct event-log signature.",
+    "modes": [
+        {"mode": "c03", "harness": "reader", "runs": {"quick": 30000, "thorough": 1000000}},
+        {"mode": "c03", "harness": "reader", "variant": "san-ndebug", "runs": {"quick": 30000, "thorough": 1000000}},
+    ],
+    "expected_probes": ["damaged input rejected with an exception", "damaged input accepted"],
+    "components_real": READER_REAL,
+    "components_stubbed": READER_STUB,
+    "assumptions": COMMON_ASSUMPTIONS + ["restricted claim: the neighbourhood of valid files that storage faults produce is sampled; no coverage-guided search over all byte strings (that is fuzzing, a different technique family)"],
 }
